@@ -40,12 +40,12 @@ def spec(tier):
         for pd in ((2, 10) if sh == 0x04 else (2,)):
             u = mkunit(units, SHAPE=sh, PD=pd)
             units[u]["havoc"] = ["s_init_from_uri_str"]
-            jobs.append(dict(unit=u, entry="h_uri_compose_parse", unwind=14 if pd == 2 else 22, timeout=600 if quick else 1500, backend="kissat" if pd == 10 else "minisat",
+            jobs.append(dict(unit=u, entry="h_uri_compose_parse", unwind=(14 if pd == 2 else 22) + (6 if sh & 64 else 0), timeout=600 if quick else 1500, backend="kissat" if pd == 10 else "minisat",
                              bounds="shape 0x%02x (bits: scheme,user,port,path,query,password,ipv6,empty-host), %d port digits; all characters symbolic" % (sh, pd),
                              what="parse(compose(components)) == components; views inside uri_str"))
-            if not (sh & 2) and sh != 0x80 and pd == 2:  # the builder has no user-info option; nothing to build for the empty shape
+            if not (sh & 2) and sh not in (0x80, 0x81) and pd == 2:  # the builder has no user-info option; nothing to build for the empty shape
               for ent in (("h_uri_builder_parse", "h_uri_builder_parse_query_list") if (sh & 16) else ("h_uri_builder_parse",)):
-                jobs.append(dict(unit=u, entry=ent, unwind=14 if pd == 2 else 22, timeout=500 if quick else 1500, backend="kissat" if pd == 10 else "minisat",
+                jobs.append(dict(unit=u, entry=ent, unwind=(14 if pd == 2 else 22) + (6 if sh & 64 else 0), timeout=500 if quick else 1500, backend="kissat" if pd == 10 else "minisat",
                                  bounds="shape 0x%02x, %d port digits; query as %s" % (sh, pd, "key=value list" if ent.endswith("list") else "string"),
                                  what="real builder assembles the text (its final dispatcher call cut), then parse == components"))
     meta = dict(functions_encoded=["all of source/uri.c"], bounds="component lengths fixed per shape (<= 3 chars each), port up to 10 digits, encoders up to 4/8 bytes, query up to 5/10 bytes",
